@@ -123,7 +123,7 @@ Definition sexec (s : sst) (o : op) : sst * out :=
           match nth_error (sobjs s) o with
           | Some x =>
               match skind x with
-              | KGen | KHUni | KCfg => let '(s1, id) := snew s (skind x) None in (sput s1 d (Some id), OD)
+              | KGen | KHUni | KCfg | KIterName => let '(s1, id) := snew s (skind x) None in (sput s1 d (Some id), OD)
               | KMetaBuf => (s_metabuf s (sinner x) d, OD)
               | _ => (s, OE)
               end
@@ -194,6 +194,16 @@ Definition sexec (s : sst) (o : op) : sst * out :=
   | XMove si d | XSetInst si d | XDetach si d =>
       let v := sslot s si in (sput (sput s si None) d v, OD)
   | XDrop d => (sput s d None, OD)
+  | XGen d => let '(s1, id) := snew s KXGen None in (sput s1 d (Some id), OD)
+  | XClone si d =>
+      match sslot s si with
+      | Some o =>
+          match nth_error (sobjs s) o with
+          | Some x => let '(s1, id) := snew s (skind x) None in (sput s1 d (Some id), OD)
+          | None => (s, OX)
+          end
+      | None => (s, OX)
+      end
   end.
 
 Definition sstep (s : sst) (o : op) : sst * out :=
